@@ -76,10 +76,68 @@ def merge_values(c, a, b):
     if isinstance(a, tuple) and a and a[0] == "tz_min" and b is None: return ("tz_opt", z3.Not(c), a[1])
     if isinstance(b, tuple) and b and b[0] == "tz_min" and a is None: return ("tz_opt", c, b[1])
     return NOMERGE
+def same_value(a, b):
+    """structural identity of two engine values (no solver)"""
+    if a is b: return True
+    if type(a) is not type(b): return False
+    if isinstance(a, (SInt, SBV, SBool, SStr, SFloat)): return a.e.eq(b.e) and getattr(a, "w", 0) == getattr(b, "w", 0)
+    if isinstance(a, (SBytes,)): return a.arr.eq(b.arr) and z3.simplify(a.n == b.n).eq(z3.BoolVal(True)) and z3.simplify(to_int(a.off) == to_int(b.off)).eq(z3.BoolVal(True))
+    if isinstance(a, SOpt): return a.isnone.eq(b.isnone) and a.val.eq(b.val)
+    if isinstance(a, (tuple, list)): return len(a) == len(b) and all(same_value(x, y) for x, y in zip(a, b))
+    if isinstance(a, z3.ExprRef): return a.eq(b)
+    if isinstance(a, (int, str, bytes, float, bool, Ref, Raised)) or a is None: return a == b
+    return False
+def merge_numeric(c, a, b):
+    """`a if c else b` for number-valued slots only (int / float kinds); NOMERGE otherwise (statement-level joins stay conservative)"""
+    num = lambda v: (isinstance(v, (int, SInt, SBV)) and not isinstance(v, bool)) or isinstance(v, (SFloat, SIte))
+    if isinstance(a, int) and isinstance(b, int): return NOMERGE          # two concrete values: keep the paths (later code may need the concrete number)
+    bvs = [v for v in (a, b) if isinstance(v, SBV)]
+    if bvs and all(isinstance(v, SBV) or (isinstance(v, int) and not isinstance(v, bool) and v >= 0) for v in (a, b)):
+        w = max([v.w for v in bvs] + [max(1, v.bit_length()) for v in (a, b) if isinstance(v, int)])       # bounded values stay bounded (bit operators need the width)
+        return SBV(z3.If(c, to_bv(a, w), to_bv(b, w)))
+    if num(a) and num(b) and not isinstance(a, SIte) and not isinstance(b, SIte): return merge_values(c, a, b)
+    if num(a) and num(b): return SIte(c, a, b)
+    return NOMERGE
+def merge_states(c, base, sa, sb):
+    """join of the two branch states of `if c:` (both fell through normally): slots that differ must all be numeric; the branch-local path
+    facts become implications.  Returns the merged state or None."""
+    n0 = len(base.pc) + 1
+    if set(sa.locals) != set(sb.locals) or set(sa.heap) != set(sb.heap) or set(sa.ghost) != set(sb.ghost): return None
+    def slot(a, b):
+        if same_value(a, b): return a
+        if type(a) is dict and type(b) is dict and list(a) == list(b):
+            out = {}
+            for k in a:
+                v = slot(a[k], b[k])
+                if v is NOMERGE: return NOMERGE
+                out[k] = v
+            return out
+        return merge_numeric(c, a, b)
+    m = sa.fork(); m.pc = list(base.pc) + [z3.Implies(c, h) for h in sa.pc[n0:]] + [z3.Implies(z3.Not(c), h) for h in sb.pc[n0:]]
+    for k in sa.locals:
+        v = slot(sa.locals[k], sb.locals[k])
+        if v is NOMERGE: return None
+        m.locals[k] = v
+    for k in sa.ghost:
+        v = slot(sa.ghost[k], sb.ghost[k])
+        if v is NOMERGE: return None
+        m.ghost[k] = v
+    for oid, (ca, fa) in sa.heap.items():
+        cb, fb = sb.heap[oid]
+        if ca != cb or set(fa) != set(fb): return None
+        for fk in fa:
+            v = slot(fa[fk], fb[fk])
+            if v is NOMERGE: return None
+            m.heap[oid][1][fk] = v
+    return m
 class SOpt:
     """Optional[int]: isnone (z3 Bool) + val (z3 Int), split lazily at `is None` tests"""
     def __init__(s, isnone, val): s.isnone = isnone; s.val = val
     def __repr__(s): return f"SOpt({s.isnone},{s.val})"
+class SAny:
+    """an object the engine knows nothing about except where it came from (e.g. a value read back from state kept between calls)"""
+    def __init__(s, origin): s.origin = origin
+    def __repr__(s): return f"SAny({s.origin})"
 class SList:
     """list of abstract items (ints naming them) with symbolic length: element k is arr[k]"""
     def __init__(s, arr, n): s.arr = arr; s.n = n
@@ -341,6 +399,7 @@ class Engine:
         if ctx.depth > 12: raise Unsupported("closure depth")
         sub = Ctx(s, module, cls, qual, parent=ctx)
         saved = st.locals; st.locals = {**env, **dict(zip(params, args))}
+        st.locals["$entry"] = tuple(args)          # ghost: the arguments on entry (parameters may be reassigned), for `old(param)` in invariants
         outs = []
         if isinstance(fn, ast.Lambda):
             for st1, v in s.eval(fn.body, st, sub):
@@ -353,6 +412,12 @@ class Engine:
             else: raise Unsupported(f"flow {flow} out of a nested function")
         return outs
     def e_Constant(s, e, st, ctx): return [(st, e.value)]
+    def e_NamedExpr(s, e, st, ctx):
+        outs = []
+        for st1, v in s.eval(e.value, st, ctx):
+            if not isinstance(v, Raised): s.assign(e.target, v, st1, ctx)
+            outs.append((st1, v))
+        return outs
     def e_Await(s, e, st, ctx):
         # sequential reading of a coroutine: `await x` evaluates x; what other tasks may do at the suspension point is the sidecar's rely condition
         hook = getattr(s, "await_hook", None)
@@ -403,6 +468,18 @@ class Engine:
                 return [(st, ("bound", q, base))]
             c = s.lookup_const(cls, attr)
             if c is not None: return [(st, c[0])]
+            alts = s.infer_field(cls, attr)
+            if alts:
+                # a field the contract's view of the object does not mention (e.g. a cache added to the class): it holds *some* value of the
+                # kinds the class stores there.  Over-approximation: obligations on such paths are marked, and a model counts only if a
+                # history through the public interface reproduces it on the real code.
+                out = []
+                for kind in alts:
+                    st2 = st.fork(); v = None if kind == "none" else SBool(fresh(f"fld_{attr}", z3.BoolSort())) if kind == "bool" else SInt(fresh(f"fld_{attr}", z3.IntSort()))
+                    st2.setf(base, attr, v); st2.ghost["$overapprox"] = tuple(st2.ghost.get("$overapprox", ())) + (f"{cls}.{attr}",)
+                    out.append((st2, v))
+                s.stats["inferred_fields"] = s.stats.get("inferred_fields", 0) + 1
+                return out
             raise Unsupported(f"attr {attr} on {cls} line {getattr(node,'lineno',0)}")
         if isinstance(base, tuple) and base and base[0] == "class":
             c = s.lookup_const(base[1], attr)
@@ -435,6 +512,55 @@ class Engine:
             r = hook(st, base, attr, ctx, node)
             if r is not None: return r
         raise Unsupported(f"getattr {attr} on {base!r} line {getattr(node,'lineno',0)}")
+
+    def mutated_tables(s):
+        """module-level dict / list constants that some function of the repository modifies (subscript store or a mutating method)"""
+        if getattr(s, "_mutated", None) is None:
+            names = set()
+            for q, (fn, m, k) in s.funcs.items():
+                for n in ast.walk(fn):
+                    base = None
+                    if isinstance(n, (ast.Assign, ast.AugAssign, ast.AnnAssign)):
+                        for t in (n.targets if isinstance(n, ast.Assign) else [n.target]):
+                            if isinstance(t, ast.Subscript): base = t.value
+                    elif isinstance(n, ast.Delete):
+                        for t in n.targets:
+                            if isinstance(t, ast.Subscript): base = t.value
+                    elif isinstance(n, ast.Call) and isinstance(n.func, ast.Attribute) and n.func.attr in ("update", "append", "extend", "clear", "pop", "insert", "remove", "setdefault", "sort", "reverse", "popitem"):
+                        base = n.func.value
+                    if isinstance(base, ast.Name) and f"{m}.{base.id}" in s.consts: names.add(f"{m}.{base.id}")
+                    elif isinstance(base, ast.Attribute) and isinstance(base.value, ast.Name) and k and f"{k}.{base.attr}" in s.consts: names.add(f"{k}.{base.attr}")
+            s._mutated = names
+        return s._mutated
+    def kept_state_read(s, st, base, default_value):
+        """a read with a symbolic key from a table that functions of the repository modify: what it holds depends on earlier calls.  Either the
+        key is absent (default / KeyError by the caller) or some stored object comes back; paths are marked as over-approximated."""
+        owner = next((k for k, v in s.consts.items() if v is base), None)
+        if owner is None or owner not in s.mutated_tables(): return None
+        a = st.fork(); b = st.fork()
+        for x in (a, b): x.ghost["$overapprox"] = tuple(x.ghost.get("$overapprox", ())) + (f"state kept in {owner}",)
+        return [(a, default_value), (b, SAny(owner))]
+
+    def infer_field(s, cls, attr):
+        """kinds of value ('none' / 'bool' / 'int') the class's own methods store into self.<attr>; None when the field is not assigned in
+        __init__ (then a constructed object need not have it) or when some stored expression is of a kind this inference does not know"""
+        kinds = []; in_init = False
+        for c in [cls] + list(s.bases.get(cls, [])):
+            for q, (fn, _m, k) in s.funcs.items():
+                if k != c or not q.startswith(c + "."): continue
+                for n in ast.walk(fn):
+                    tgt = val = None
+                    if isinstance(n, ast.Assign) and len(n.targets) == 1: tgt, val = n.targets[0], n.value
+                    elif isinstance(n, ast.AnnAssign) and n.value is not None: tgt, val = n.target, n.value
+                    elif isinstance(n, ast.AugAssign): tgt, val = n.target, n
+                    if not (isinstance(tgt, ast.Attribute) and isinstance(tgt.value, ast.Name) and tgt.value.id == "self" and tgt.attr == attr): continue
+                    if fn.name == "__init__": in_init = True
+                    if isinstance(val, ast.Constant) and val.value is None: kinds.append("none")
+                    elif (isinstance(val, ast.Constant) and isinstance(val.value, bool)) or isinstance(val, (ast.Compare, ast.BoolOp)) or (isinstance(val, ast.UnaryOp) and isinstance(val.op, ast.Not)): kinds.append("bool")
+                    elif isinstance(val, ast.Constant) and isinstance(val.value, int): kinds.append("int")
+                    else: return None
+        if not in_init or not kinds: return None
+        return sorted(set(kinds))
 
     def lookup_method(s, cls, name):
         q = f"{cls}.{name}"
@@ -966,11 +1092,19 @@ class Engine:
         if isinstance(base, (dict, list)) and attr in ("update", "append", "extend", "clear", "pop", "insert", "remove", "setdefault", "sort", "reverse"):
             # frame condition: module- and class-level tables are never modified by a function under contract (they are shared by every later call)
             owner = next((k for k, v in s.consts.items() if v is base), None)
-            if owner is not None: ctx.oblige(st, f"frame:module-level table {owner} is not modified", z3.BoolVal(False), node)
+            if owner is not None: ctx.oblige(st, f"frame:module-level table {owner} is not modified", z3.BoolVal(False), node, overapprox=[f"state kept in {owner}"])
         if isinstance(base, dict) and attr == "update" and len(args) == 1 and isinstance(args[0], dict) and type(base) is dict:
             base.update(args[0]); return [(st, None)]
         if isinstance(base, dict) and attr in ("items", "keys", "values") and not args:
             return [(st, [tuple(kv) for kv in base.items()] if attr == "items" else list(base.keys()) if attr == "keys" else list(base.values()))]
+        if isinstance(base, dict) and attr == "get" and 1 <= len(args) <= 2 and is_sym(args[0]):
+            r = s.kept_state_read(st, base, args[1] if len(args) == 2 else None)
+            if r is not None: return r
+        if isinstance(base, dict) and attr == "get" and 1 <= len(args) <= 2 and isinstance(args[0], SStr) and base and all(isinstance(k, str) and isinstance(v, str) for k, v in base.items()):
+            # constant str -> str table looked up with a symbolic key: absent (default) or one of the entries
+            keys = list(base); miss = st.fork(); miss.pc += [args[0].e != z3.StringVal(k) for k in keys]
+            hit = st.fork(); r = fresh("dictval", z3.StringSort()); hit.pc.append(z3.Or(*[z3.And(args[0].e == z3.StringVal(k), r == z3.StringVal(base[k])) for k in keys]))
+            return [(miss, args[1] if len(args) == 2 else None), (hit, SStr(r))]
         if isinstance(base, dict) and attr == "get" and 1 <= len(args) <= 2 and not is_sym(args[0]):
             try: return [(st, base.get(args[0], args[1] if len(args) == 2 else None))]
             except TypeError: raise Unsupported("dict.get key")
@@ -1005,6 +1139,9 @@ class Engine:
         for st0, it in s.eval(gen.iter, st, ctx):
             if isinstance(it, Raised): outs.append((st0, it)); continue
             if isinstance(it, dict): it = list(it)
+            if isinstance(it, tuple) and len(it) == 2 and it[0] == "range" and isinstance(it[1], list):
+                if not all(isinstance(a, int) and not isinstance(a, bool) for a in it[1]): raise Unsupported(f"comprehension over a symbolic range line {e.lineno}")
+                it = list(range(*it[1]))
             if isinstance(it, SStrList) and isinstance(e.elt, ast.Name) and isinstance(gen.target, ast.Name) and e.elt.id == gen.target.id:
                 # [x for x in <strings> if cond(x)]: some sub-list of the strings (which ones is not tracked)
                 n2 = fresh("sub_n", z3.IntSort()); st0.pc += [n2 >= 0, n2 <= it.n]
@@ -1152,6 +1289,27 @@ class Engine:
             for t in stmt.targets: s.assign(t, v, st1, ctx)          # a = b = value: evaluated once, bound left to right
             outs.append((st1, NORMAL, None))
         return outs
+    def x_Delete(s, stmt, st, ctx):
+        """del E[:k]  /  del E[k:]  on a byte buffer held in a local or a field: the in-place form of E = E[k:] / E = E[:k]
+        (the buffers under contract are never aliased: bytes(...) copies)"""
+        states = [st]
+        for t in stmt.targets:
+            if not (isinstance(t, ast.Subscript) and isinstance(t.slice, ast.Slice) and t.slice.step is None and isinstance(t.value, (ast.Name, ast.Attribute))): raise Unsupported(f"stmt Delete line {stmt.lineno}")
+            lo, hi = t.slice.lower, t.slice.upper
+            if lo is None or (isinstance(lo, ast.Constant) and lo.value == 0): sl = ast.Slice(lower=hi, upper=None) if hi is not None else None
+            elif hi is None: sl = ast.Slice(lower=None, upper=lo)
+            else: raise Unsupported(f"stmt Delete (inner slice) line {stmt.lineno}")
+            load = _copy.deepcopy(t.value); load.ctx = ast.Load()
+            value = ast.Subscript(value=load, slice=sl, ctx=ast.Load()) if sl is not None else ast.Subscript(value=load, slice=ast.Slice(lower=ast.Constant(value=0), upper=ast.Constant(value=0)), ctx=ast.Load())
+            store = _copy.deepcopy(t.value); store.ctx = ast.Store()
+            asg = ast.fix_missing_locations(ast.copy_location(ast.Assign(targets=[store], value=value), stmt))
+            nxt = []
+            for s0 in states:
+                for st1, flow, v in s.x_Assign(asg, s0, ctx):
+                    if flow != NORMAL: return [(st1, flow, v)] if len(states) == 1 else (_ for _ in ()).throw(Unsupported("Delete raising on a forked state"))
+                    nxt.append(st1)
+            states = nxt
+        return [(x, NORMAL, None) for x in states]
     def x_AnnAssign(s, stmt, st, ctx):
         if stmt.value is None: return [(st, NORMAL, None)]
         outs = []
@@ -1168,6 +1326,11 @@ class Engine:
             s.assign(stmt.target, s.binop(stmt.op, vs[0], vs[1], stmt, st1, ctx), st1, ctx); outs.append((st1, NORMAL, None))
         return outs
     def assign(s, target, v, st, ctx):
+        if isinstance(target, ast.Tuple) and isinstance(v, (SStrList, SList)):
+            # unpacking a list of symbolic length: supported when the path condition fixes the length to the number of targets
+            k = len(target.elts); probe = st.fork(); probe.pc.append(v.n != k)
+            if s.feasible(probe): raise Unsupported(f"unpacking a list whose length is not known to be {k}")
+            v = [SStr(z3.Select(v.arr, i)) for i in range(k)] if isinstance(v, SStrList) else [SInt(z3.Select(v.arr, i)) for i in range(k)]
         if isinstance(target, ast.Tuple):
             assert isinstance(v, (tuple, list)) and len(target.elts) == len(v), (ast.unparse(target), v)
             for t, x in zip(target.elts, v): s.assign(t, x, st, ctx)
@@ -1182,8 +1345,13 @@ class Engine:
             (st2, key), = s.eval(target.slice, st1, ctx)
             if isinstance(base, dict) and not is_sym(key):
                 owner = next((k for k, c in s.consts.items() if c is base), None)
-                if owner is not None and not ctx.qual.endswith("<toplevel>"): ctx.oblige(st, f"frame:module-level table {owner} is not modified", z3.BoolVal(False), target)
+                if owner is not None and not ctx.qual.endswith("<toplevel>"): ctx.oblige(st, f"frame:module-level table {owner} is not modified", z3.BoolVal(False), target, overapprox=[f"state kept in {owner}"])
                 base[key] = v
+            elif isinstance(base, dict) and next((k for k, c in s.consts.items() if c is base), None) in s.mutated_tables():
+                # store with a symbolic key into state kept between calls: not tracked (every read of such a table is havocked); the frame
+                # obligation records that the function's result may now depend on earlier calls
+                owner = next(k for k, c in s.consts.items() if c is base)
+                ctx.oblige(st, f"frame:module-level table {owner} is not modified", z3.BoolVal(False), target, overapprox=[f"state kept in {owner}"])
             else:
                 hook = getattr(s, "setitem_hook", None)
                 if hook is None or not hook(st, base, key, v, ctx, target): raise Unsupported("subscript store")
@@ -1265,9 +1433,17 @@ class Engine:
         outs = []
         for st1, c in s.eval(stmt.test, st, ctx):
             if isinstance(c, Raised): outs.append((st1, RAISE, c)); continue
-            for st2, b in s.split(st1, c):
-                if not s.feasible(st2): continue
-                outs += s.exec_block(stmt.body if b else stmt.orelse, st2, ctx)
+            parts = [(st2, b) for st2, b in s.split(st1, c) if s.feasible(st2)]
+            res = [s.exec_block(stmt.body if b else stmt.orelse, st2, ctx) for st2, b in parts]
+            if len(parts) == 2 and all(len(r) == 1 and r[0][1] == NORMAL for r in res):
+                # join: both branches fall through on a single path each and differ only in number-valued slots (e.g. `x = a` / `x = float(b)`):
+                # one state with conditional values instead of two paths (keeps element-wise decoding loops linear)
+                sa, sb = res[0][0][0], res[1][0][0]          # split() returns the true branch first
+                if parts[0][1] is True and len(sa.pc) > len(st1.pc) and len(sb.pc) > len(st1.pc):
+                    m = merge_states(parts[0][0].pc[len(st1.pc)], st1, sa, sb)
+                    if m is not None:
+                        s.stats["joins"] = s.stats.get("joins", 0) + 1; outs.append((m, NORMAL, None)); continue
+            for r in res: outs += r
         return outs
 
     def feasible(s, st):
@@ -1340,6 +1516,7 @@ class Engine:
             if isinstance(n, ast.For):
                 for x in ast.walk(n.target):
                     if isinstance(x, ast.Name): names.add(x.id)
+            if isinstance(n, ast.NamedExpr) and isinstance(n.target, ast.Name): names.add(n.target.id)
             if isinstance(n, ast.Call) and isinstance(n.func, ast.Attribute) and n.func.attr in ("append", "clear", "extend") and isinstance(n.func.value, ast.Name):
                 names.add(n.func.value.id)
         return names
@@ -1365,10 +1542,10 @@ class Engine:
             lo_e, hi_e = to_int(lo), to_int(hi)
         elif is_for:
             lo_e, hi_e = z3.IntVal(0), seq.n
-            ivar = idx_name; st.locals[ivar] = 0
+            ivar = idx_name; st.locals[ivar] = 0; st.locals[f"__seq{no}"] = seq       # ghost locals: position in, and value of, the iterated sequence
         for nm, g in _inv_parts(inv(st, s)): ctx.oblige(st, f"inv-entry#{no}{nm}", g, stmt)
         st_h = st.fork()
-        for name in sorted(s.assigned_names(stmt.body) | ({ivar} if is_for else set())):
+        for name in sorted(s.assigned_names(stmt.body + ([ast.Expr(value=stmt.test)] if isinstance(stmt, ast.While) else [])) | ({ivar} if is_for else set())):
             cur = st_h.locals.get(name)
             if name in ltypes:
                 w = ltypes[name]
@@ -1392,6 +1569,7 @@ class Engine:
             st_h.pc += [to_int(iv) >= lo_e, to_int(iv) <= z3.If(hi_e > lo_e, hi_e, lo_e)]
         st_h.pc += [g for _, g in _inv_parts(inv(st_h, s))]
         outs = []
+        d_head = dec(st_h.fork(), s) if dec else None          # the measure at the loop head, before the test runs (the test may have effects)
         if is_for:
             guard = to_int(st_h.locals[ivar]) < hi_e
             sb = st_h.fork(); sb.pc.append(guard)
@@ -1407,7 +1585,7 @@ class Engine:
                 for s2, b in s.split(sg, c): (bodies if b else exits).append(s2)
         for sb in bodies:
             if not s.feasible(sb): continue
-            d0 = dec(sb, s) if dec else None
+            d0 = d_head
             for st2, f2, v2 in s.exec_block(stmt.body, sb, ctx):
                 if f2 in (NORMAL, CONTINUE):
                     if is_for: st2.locals[ivar] = SInt(to_int(st2.locals[ivar]) + 1)
@@ -1472,6 +1650,7 @@ class Engine:
                 if di < 0: raise Unsupported(f"missing argument {params[i]} for {q}")
                 (st_, dv), = s.eval(defaults[di], st, sub); args = args + [dv]
         st.locals = dict(zip(params, args))
+        st.locals["$entry"] = tuple(args)
         outs = []
         for st1, flow, val in s.exec_block(fn.body, st, sub):
             st1.locals = dict(saved)
@@ -1491,7 +1670,7 @@ class Engine:
             ctx = Ctx(s, mod, cls, q, root_name=root); ctx.verifying = q; ctx.fork_implicit = contract.fork_implicit
             old = contract.snapshot(st, args, s)
             params = [a.arg for a in fn.args.args]
-            st.locals = dict(zip(params, args))
+            st.locals = dict(zip(params, args)); st.locals["$entry"] = tuple(args)
             for st1, flow, val in s.exec_block(fn.body, st, ctx):
                 s.stats["paths"] += 1
                 if flow == RAISE:
@@ -1505,6 +1684,75 @@ class Engine:
             contract.callees |= ctx.callees
             all_obls += ctx.obls
         return all_obls
+
+def _reads_incoming(stmts, nm):
+    """does this statement list read the value `nm` had on entry?  'read' (it may), 'written' (always overwritten, or control leaves, first), 'open'"""
+    def ld(n): return n is not None and any(isinstance(x, ast.Name) and x.id == nm and isinstance(x.ctx, ast.Load) for x in ast.walk(n))
+    def sto(n): return any(isinstance(x, ast.Name) and x.id == nm and isinstance(x.ctx, ast.Store) for x in ast.walk(n))
+    def one(st):
+        if isinstance(st, ast.Assign):
+            if ld(st.value) or any(ld(t) for t in st.targets): return "read"
+            return "written" if any(isinstance(t, ast.Name) and t.id == nm for t in st.targets) or any(isinstance(t, (ast.Tuple, ast.List)) and sto(t) for t in st.targets) else "open"
+        if isinstance(st, ast.AugAssign):
+            if (isinstance(st.target, ast.Name) and st.target.id == nm) or ld(st.value) or ld(st.target): return "read"
+            return "open"
+        if isinstance(st, ast.AnnAssign):
+            if ld(st.value) or ld(st.target): return "read"
+            return "written" if st.value is not None and isinstance(st.target, ast.Name) and st.target.id == nm else "open"
+        if isinstance(st, ast.If):
+            if ld(st.test): return "read"
+            a, b = _reads_incoming(st.body, nm), _reads_incoming(st.orelse, nm)
+            if "read" in (a, b): return "read"
+            return "written" if a == b == "written" else "open"
+        if isinstance(st, (ast.For, ast.AsyncFor)):
+            if ld(st.iter): return "read"
+            if not sto(st.target) and _reads_incoming(st.body, nm) == "read": return "read"
+            return "read" if _reads_incoming(st.orelse, nm) == "read" else "open"
+        if isinstance(st, ast.While):
+            if ld(st.test) or _reads_incoming(st.body, nm) == "read" or _reads_incoming(st.orelse, nm) == "read": return "read"
+            return "open"
+        if isinstance(st, ast.Try):
+            for blk in [st.body] + [h.body for h in st.handlers] + [st.orelse, st.finalbody]:
+                if _reads_incoming(blk, nm) == "read": return "read"
+            return "open"
+        if isinstance(st, (ast.With, ast.AsyncWith)):
+            if any(ld(i.context_expr) for i in st.items): return "read"
+            return _reads_incoming(st.body, nm)
+        if isinstance(st, (ast.Return, ast.Raise)): return "read" if ld(st) else "written"
+        if isinstance(st, (ast.Break, ast.Continue)): return "open"
+        return "read" if ld(st) else "open"
+    for st in stmts:
+        r = one(st)
+        if r != "open": return r
+    return "open"
+
+def loop_roles(fn, loop):
+    """names of a loop's variables by role, so that invariants do not depend on what the locals are called:
+    index   = the target of `for x in ...`, or the single variable a `while` loop steps by a constant (x += c / x = x + c)
+    carried = names assigned in the body whose value from the previous iteration (or from before the loop) is read: loaded in the body
+              no later than their first assignment there, in the loop test, or after the loop"""
+    body = loop.body
+    def stores(n): return {x.id for x in ast.walk(n) if isinstance(x, ast.Name) and isinstance(x.ctx, ast.Store)}
+    def loads(n): return {x.id for x in ast.walk(n) if isinstance(x, ast.Name) and isinstance(x.ctx, ast.Load)} | \
+                         {x.target.id for x in ast.walk(n) if isinstance(x, ast.AugAssign) and isinstance(x.target, ast.Name)}
+    index = None
+    if isinstance(loop, ast.For) and isinstance(loop.target, ast.Name): index = loop.target.id
+    else:
+        steps = set()
+        for x in ast.walk(loop):
+            if isinstance(x, ast.AugAssign) and isinstance(x.target, ast.Name) and isinstance(x.op, (ast.Add, ast.Sub)) and isinstance(x.value, ast.Constant): steps.add(x.target.id)
+            if isinstance(x, ast.Assign) and len(x.targets) == 1 and isinstance(x.targets[0], ast.Name) and isinstance(x.value, ast.BinOp) and isinstance(x.value.op, (ast.Add, ast.Sub)) \
+               and isinstance(x.value.left, ast.Name) and x.value.left.id == x.targets[0].id and isinstance(x.value.right, ast.Constant): steps.add(x.targets[0].id)
+        if len(steps) == 1: index = next(iter(steps))
+    assigned = set().union(*[stores(b) for b in body]) if body else set()
+    carried = []
+    end = max(getattr(x, "end_lineno", 0) or 0 for x in ast.walk(loop))
+    after = {x.id for x in ast.walk(fn) if isinstance(x, ast.Name) and isinstance(x.ctx, ast.Load) and x.lineno > end}
+    test_loads = loads(loop.test) if isinstance(loop, ast.While) else set()
+    for nm in sorted(assigned):
+        if nm == index and isinstance(loop, ast.For): continue
+        if _reads_incoming(body, nm) == "read" or nm in after or nm in test_loads: carried.append(nm)
+    return {"index": index, "carried": carried}
 
 def _inv_parts(r):
     """a loop invariant is a z3 Bool or a list of (name, z3 Bool) clauses (one obligation per clause)"""
@@ -1549,6 +1797,7 @@ class Ctx:
         key = (s.qual, kind)
         n = s.root.counts.get(key, 0); s.root.counts[key] = n + 1
         where = "" if s.qual == s.root.qual else f"@{s.qual.split('.')[-1]}"
+        if st.ghost.get("$overapprox"): meta = dict(meta, overapprox=list(st.ghost["$overapprox"]))
         s.obls.append(Obligation(f"{s.root.root_name}#{kind}{where}.{n}", list(st.pc), g, getattr(node, 'lineno', 0), reveal=reveal,
                                  kind=kind.split(":")[0].split("#")[0], func=s.root.qual, meta=meta))
 
